@@ -14,6 +14,7 @@ import z3
 from pyvc import sym, instrument, vc as vcm
 from pyvc.arr import SymArray
 from pyvc.harness import Unit
+from pyvc import harness as _h
 from pyvc.models.npmodel import NP, BUILTINS
 from pyvc.sym import SB, SI, SR, check, assume, explore
 
@@ -450,10 +451,16 @@ def run_device_transforms(mutate=None):
     return dict(obls=obls, paths=n, sources=[L.info()], consistent=True)
 
 
+
+def _bounded_quick():
+    return native(0, 10)
+
+
 def units():
     return [Unit("Polygon wrappers", P_ + ":Polygon.points setter / rotate / translate / scale / copy / union / intersection / difference / operators", run_polygon, props=["C18"], timeout=300),
             Unit("Device.contains_points", D_ + ":Device.contains_points", run_device_membership, props=["C18"], timeout=300),
-            Unit("Device.rotate / scale", D_ + ":Device.rotate, Device.scale", run_device_transforms, props=["C18"], timeout=300)]
+            Unit("Device.rotate / scale", D_ + ":Device.rotate, Device.scale", run_device_transforms, props=["C18"], timeout=300),
+            _h.bounded_unit("real shapely geometry [bounded]", "tdgl.device.polygon / device (real shapely)", "C18", _bounded_quick, "polygon_and_device_geometry_laws[10 shape pairs]", timeout=900)]
 
 
 def native(seed=0, trials=60):
